@@ -164,3 +164,16 @@ Fixpoint has_other (x : hinst) : bool :=
   | ILeaf _ _ _ c => existsb other_conn c
   | ISub _ _ _ body c => existsb other_conn c || existsb has_other body
   end.
+
+(* every connection of the hierarchy is a whole signal declared in the module of its instance *)
+Definition conn_declared (mp ms : list (name * Z)) (c : name * hconn) : bool :=
+  match snd c with CSig s => has_key s ms || has_key s mp | COther => false end.
+
+Fixpoint sup_inst (mp ms : list (name * Z)) (x : hinst) : bool :=
+  match x with
+  | ILeaf _ _ _ c => forallb (conn_declared mp ms) c
+  | ISub _ ports sigs body c => forallb (conn_declared mp ms) c && forallb (sup_inst ports sigs) body
+  end.
+
+Definition supported (t : hmod) : bool := forallb (sup_inst (h_ports t) (h_sigs t)) (h_body t).
+
